@@ -53,6 +53,7 @@ type SysWorld struct {
 	logLevel    slog.Level
 	seed        int64
 	reqSeq      int
+	recs        map[*Task]*simRecorder
 }
 
 type SysOptions struct {
@@ -234,17 +235,41 @@ func (w *SysWorld) Do(name string, h http.Handler, req *http.Request) *Resp {
 }
 
 // Start creates the task for a request without running it (for interleaving).
+// simRecorder notes the instant the status line becomes visible to the client:
+// an answer that was written before the process died counts as seen.
+type simRecorder struct {
+	*httptest.ResponseRecorder
+	wrote bool
+}
+
+func (r *simRecorder) WriteHeader(code int) {
+	if !r.wrote {
+		r.wrote = true
+	}
+	r.ResponseRecorder.WriteHeader(code)
+}
+
+func (r *simRecorder) Write(b []byte) (int, error) {
+	r.wrote = true
+	return r.ResponseRecorder.Write(b)
+}
+
 func (w *SysWorld) Start(name string, h http.Handler, req *http.Request) *Task {
 	w.reqSeq++
-	rec := httptest.NewRecorder()
-	return w.Sched.Go(fmt.Sprintf("%s#%d", name, w.reqSeq), w.group, func() any {
+	rec := &simRecorder{ResponseRecorder: httptest.NewRecorder()}
+	t := w.Sched.Go(fmt.Sprintf("%s#%d", name, w.reqSeq), w.group, func() any {
 		if h == nil {
 			rec.WriteHeader(599)
-			return rec
+			return rec.ResponseRecorder
 		}
 		h.ServeHTTP(rec, req)
-		return rec
+		return rec.ResponseRecorder
 	})
+	if w.recs == nil {
+		w.recs = map[*Task]*simRecorder{}
+	}
+	w.recs[t] = rec
+	return t
 }
 
 func (w *SysWorld) finish(t *Task, kind string) *Resp {
@@ -256,6 +281,11 @@ func (w *SysWorld) finish(t *Task, kind string) *Resp {
 		w.Res.Trouble = w.Sched.Trouble
 		return &Resp{Lost: true}
 	default: // crashed, or parked dead
+		if rec := w.recs[t]; rec != nil && rec.wrote {
+			// the status line was out before the process died: the client saw it
+			w.Res.probe("crash.after_answer_written")
+			return &Resp{Status: rec.Code, Header: rec.Header(), Body: rec.Body.Bytes()}
+		}
 		return &Resp{Lost: true}
 	}
 }
